@@ -339,3 +339,8 @@ def run(ck):
     # earlier call: trimmed level ladders, stale limits) and on the preprocessed sessions (shared with C07)
     from .c07 import rule_pipeline
     ck.attempt(rule_pipeline, rid="C08.R7")
+    # "feasible given the pilots already granted": the description the allocation works on is the network's present one (no memo on the
+    # interface) and is the caller's own copy - an allocation that trims level ladders in place must not be trimming the network's
+    from .c05 import rule_stateless_view, rule_escape
+    ck.attempt(rule_stateless_view, rid="C08.R9")
+    ck.attempt(rule_escape, rid="C08.R9")
